@@ -14,6 +14,7 @@ import (
 
 // Frame is one activation (top-level function or an inlined callee).
 type Frame struct {
+	sendCancellable bool // the send being executed is a select arm next to a ctx.Done() receive
 	vc      *VC
 	fn      *ssa.Function
 	key     string
